@@ -10,7 +10,7 @@ CONSTANTS
   MaxArg = 9
   MaxOps = 1000
   MaxEnv = 1000
-  Ops = {"unique", "sleep", "raise", "create", "cancel", "addcb", "rmcb", "wait", "exec", "call"}
+  Ops = {"unique", "sleep", "raise", "create", "cancel", "addcb", "rmcb", "wait", "exec", "call", "cbtab"}
   Kinds = {"trig", "svc"}
   Decos <- DecosAll
   Flags = {}
